@@ -2,6 +2,7 @@ import I18n.Lemmas.CharsetTables
 import I18n.Lemmas.CharsetCharmaps
 import I18n.Lemmas.CharsetIconv
 import I18n.Lemmas.CharsetCheckTags
+import I18n.Lemmas.CharsetEucTw
 /-!
 # C20 — charset names are classified consistently and the extra codecs are lossless
 
@@ -174,6 +175,27 @@ theorem koi8t_table_roundtrip (bs : List UInt8) (cs : List Nat) (h : charmapDeco
     charmapEncode koi8tTable cs = .ok bs :=
   Charset.charmap_roundtrip koi8tTable (injBool_sound _ koi8t_injective) bs cs h
 
+/-! ## EUC-TW: the structure of the encoding (glibc's euc-tw.c) over abstract CNS 11643 tables -/
+
+/-- a decode error of the EUC-TW structure points at a byte inside the input (the binding turns that offset into the
+    start of a non-empty span: `iconv_loop_error_span`) -/
+theorem euctw_decode_error_position (cns : CnsTable) (bs : List UInt8) (s : Nat) (k : Bool)
+    (h : eucTwDecode cns bs = .error (s, k)) : s < bs.length := by
+  have := eucTwDecodeLoop_error_pos cns bs.length 0 bs s k h
+  omega
+
+/-- **encode(decode(b)) = b for EUC-TW, on canonical input**: whenever every unit of `b` is the form the encoder itself
+    writes for its character (two bytes for plane 1, `8E A0+p` for planes ≥ 2, never a second code point of a character) -/
+theorem euctw_roundtrip_partial (cns : CnsTable) (inv : CnsInverse) (bs : List UInt8) (cs : List Nat)
+    (h : eucTwDecode cns bs = .ok cs) (hcan : eucTwCanonical cns inv bs.length bs = true) :
+    eucTwEncode inv cs = .ok bs := eucTw_roundtrip cns inv bs cs h hcan
+
+/-- … and **false without that restriction**, for any tables that agree with the system iconv on the dumped facts -/
+theorem euctw_roundtrip_refuted (cns : CnsTable) (inv : CnsInverse) (h : AgreesWithIconv cns inv) :
+    (eucTwDecode cns [0x8E, 0xA1, 0xA4, 0xA1] = .ok [0xFF10] ∧ eucTwEncode inv [0xFF10] = .ok [0xA4, 0xA1]) ∧
+    (eucTwDecode cns [0x8E, 0xA3, 0xA1, 0xB8] = .ok [0x5344] ∧ eucTwEncode inv [0x5344] = .ok [0xA4, 0xBF]) ∧
+    ¬ (∀ bs cs, eucTwDecode cns bs = .ok cs → eucTwEncode inv cs = .ok bs) := eucTw_roundtrip_refuted cns inv h
+
 /-! ## The iconv binding: `_decode_dl` / `_encode_dl` over an abstract iconv -/
 
 /-- **(a) told ≤ allocated** — for every iconv behaviour, input and number of rounds: the byte count passed in
@@ -345,6 +367,20 @@ example : charmapDecode charmap_VISCII [0x02, 0x41, 0xFF] = .ok [0x1EB2, 0x41, 0
 example : charmapEncode charmap_VISCII [0x61, 0x20AC, 0x20AC, 0x62, 0x20AC] = .error (1, 3) := by decide +kernel
 /-- glibc's KOI8-T rejects byte 0x88: a decode error with a valid span does occur -/
 example : charmapDecode koi8tTable [0x41, 0x88] = .error (1, 2) := by decide +kernel
+
+/-- tables holding just the dumped facts agree with the system iconv (so `euctw_roundtrip_refuted` is not vacuous), and the
+    canonical unit `8E A2 A4 A1` round-trips under them -/
+private def demoCns : CnsTable := fun p r c =>
+  (eucTwDecodeFacts.find? fun f => f.1 == (if p = 1 then [r, c] else [0x8E, 0xA0 + p, r, c]) || (p = 1 && f.1 == [0x8E, 0xA1, r, c])).map (·.2)
+private def demoInv : CnsInverse := fun ch =>
+  match (eucTwEncodeFacts.find? (·.1 == ch)).map (·.2) with
+  | some [r, c] => some (1, r, c)
+  | some [_, p, r, c] => some (p - 0xA0, r, c)
+  | _ => none
+example : (eucTwDecodeFacts.all fun f => eucTwDecode demoCns (toBytes f.1) == .ok [f.2]) = true ∧
+    (eucTwEncodeFacts.all fun f => eucTwEncode demoInv [f.1] == .ok (toBytes f.2)) = true := by decide +kernel
+example : eucTwCanonical demoCns demoInv 4 [0x8E, 0xA2, 0xA4, 0xA1] = true ∧ eucTwCanonical demoCns demoInv 4 [0x8E, 0xA1, 0xA4, 0xA1] = false ∧
+    eucTwDecode demoCns [0x41, 0xA4] = .error (1, true) ∧ eucTwDecode demoCns [0x41, 0xFF, 0x42] = .error (1, false) := by decide +kernel
 
 /-- an iconv that needs 8 bytes of room for the two characters of `ab` -/
 private def demoStep : Step := fun told =>
